@@ -14,7 +14,7 @@ from explore import expect, conc, Violation
 
 PROPERTY = 'C11'
 HELPERS = os.path.join(hsupport.VERIF, 'helpers/bin')
-BUDGET = {'quick': 900, 'thorough': 3000}
+BUDGET = {'quick': 900, 'thorough': 1500}
 BOUNDS = {'quick': dict(out_len=3, ctx_len=2), 'thorough': dict(out_len=5, ctx_len=2)}
 ASSUMPTIONS = [
     'bounded: captured output of <= out_len characters (arbitrary scalars except NUL, including newline), <= ctx_len characters before and after the substitution (excluding quotes, backquote, backslash, `$` and parentheses, which would make it a different word)',
